@@ -108,6 +108,7 @@ def run_cases(cases, rec, tier='quick', seed='0'):
         q = make_symbol(case)
         kind, kw = case['kind'], case['kw']
         out = io.StringIO() if kind in ('eps', 'tex') else io.BytesIO()
+        common.earlier_saves(q, case, rec)
         try:
             q.save(out, kind=kind, **kw)
         except ValueError as ex:
